@@ -18,12 +18,24 @@ thread_local! {
     /// refuse the next request (set by the sink when its write fails)
     static REFUSE_NEXT: Cell<bool> = const { Cell::new(false) };
     static REFUSED: Cell<u64> = const { Cell::new(0) };
+    /// the harness is doing something of its own inside an armed region (starting a thread):
+    /// requests are neither counted nor refused
+    static SUSPENDED: Cell<bool> = const { Cell::new(false) };
+}
+
+/// Suspends counting and refusing on this thread; returns the previous state for `resume`.
+pub fn suspend() -> bool {
+    SUSPENDED.try_with(|s| s.replace(true)).unwrap_or(false)
+}
+
+pub fn resume(prev: bool) {
+    let _ = SUSPENDED.try_with(|s| s.set(prev));
 }
 
 #[inline]
 fn should_refuse() -> bool {
     let armed = ARMED.try_with(|a| a.get()).unwrap_or(false);
-    if !armed {
+    if !armed || SUSPENDED.try_with(|s| s.get()).unwrap_or(true) {
         return false;
     }
     let n = COUNT.with(|c| {
@@ -76,6 +88,7 @@ pub fn arm(refuse_at: Option<u64>, persistent: bool) {
     REFUSE_AT.with(|r| r.set(refuse_at.unwrap_or(u64::MAX)));
     PERSISTENT.with(|p| p.set(persistent));
     REFUSE_NEXT.with(|r| r.set(false));
+    SUSPENDED.with(|s| s.set(false));
     ARMED.with(|a| a.set(true));
 }
 
